@@ -19,11 +19,10 @@ EXTRACT = ["C15"]
 BINS = ["c15"]
 NEEDS_CICADA = True
 ALLOWED_AXIOMS = []
-PINNED = ["C15_args", "C15_args_newline_refuted", "C15_func_status", "C15_sete_flat", "C15_sete_calls_instances",
-          "C15_sete_source_refuted",
-          "C15_sete_nested_refuted", "C15_full", "C15_refuted"]
+PINNED = ["C15_args", "C15_args_newline_refuted", "C15_func_status", "C15_sete_flat", "C15_sete", "C15_sete_stops", "C15_sete_calls_instances",
+          "C15_full", "C15_refuted"]
 TRUSTED = [
-    "Coq 8.16.1 kernel (coqc; coqchk in thorough); vm_compute in Example witnesses and in C15_sete_nested_refuted",
+    "Coq 8.16.1 kernel (coqc; coqchk in thorough); vm_compute in Example witnesses and in the regression Examples",
     "hand transcription of is_args_in_token / expand_args_for_single_token / expand_args_in_tokens, of the function "
     "extraction loop of run_script and of the status rules (coq/theories/Model/Args.v); the two regexes are modelled as "
     "hand-written first-match functions; tied by L1 (positional parameters) and L2 (function table, statuses)",
@@ -184,8 +183,7 @@ def gen_l2(ctx, hp, workdir_token):
             text = "set -e\nfor j in 1\nif %s\n%s\n%s\nfi\ndone\n%s\n" % (H(0, "c"), H(2, "bad"), body_after, H(0, "after-block"))
             good = [["@x0", "c"], ["@x2", "bad"]]
         bad = good + [["@x0", "after-block"]]
-        cases.append(dict(files={"main.sh": text}, main="main.sh", args=[], expect=(good, 2),
-                          known=("sete-nested-body", (bad, 0)), tag="sete-" + kind))
+        cases.append(dict(files={"main.sh": text}, main="main.sh", args=[], expect=(good, 2), known=None, tag="sete-" + kind))
     return cases
 
 
